@@ -31,100 +31,6 @@ func tableSource(space string) string {
 	return space
 }
 
-// lutInfo describes how a LUT variable is filled: builder applied to curve.
-type lutInfo struct {
-	Builder *ssa.Function
-	Curve   *ssa.Function
-	Pos     string
-	Why     string
-}
-
-// lutFilledBy finds the (single) store to LUT variable g and decodes
-// `g = builder(curve)[:]`.
-func lutFilledBy(p *Program, g *ssa.Global) lutInfo {
-	var stores []*ssa.Store
-	for _, f := range p.SrcFuncs() {
-		for _, b := range f.Blocks {
-			for _, in := range b.Instrs {
-				if st, ok := in.(*ssa.Store); ok && st.Addr == ssa.Value(g) {
-					stores = append(stores, st)
-				}
-			}
-		}
-	}
-	if len(stores) != 1 {
-		return lutInfo{Why: fmt.Sprintf("%d stores to the table variable (exactly one expected)", len(stores))}
-	}
-	st := stores[0]
-	info := lutInfo{Pos: p.InstrPos(st)}
-	sl, ok := st.Val.(*ssa.Slice)
-	if !ok {
-		info.Why = "the stored value is not the full slice of a built array"
-		return info
-	}
-	al, ok := sl.X.(*ssa.Alloc)
-	if !ok {
-		info.Why = "the stored slice is not taken from a local array"
-		return info
-	}
-	// full slice: arr[:], arr[0:], arr[:len(arr)], arr[0:len(arr)] (len of an array is a constant)
-	arrLen := int64(-1)
-	if pt, isP := al.Type().Underlying().(*types.Pointer); isP {
-		if at, isA := pt.Elem().Underlying().(*types.Array); isA {
-			arrLen = at.Len()
-		}
-	}
-	if sl.Low != nil {
-		if lo, isC := constInt(sl.Low); !isC || lo != 0 {
-			info.Why = "the stored value is not the full slice of a built array"
-			return info
-		}
-	}
-	if sl.High != nil {
-		if hi, isC := constInt(sl.High); !isC || hi != arrLen {
-			info.Why = "the stored value is not the full slice of a built array"
-			return info
-		}
-	}
-	var call *ssa.Call
-	for _, u := range refs(al) {
-		switch u := u.(type) {
-		case *ssa.Store:
-			if u.Addr != ssa.Value(al) {
-				info.Why = "array escapes"
-				return info
-			}
-			c, ok := u.Val.(*ssa.Call)
-			if !ok || call != nil {
-				info.Why = "array is not initialised by exactly one builder call"
-				return info
-			}
-			call = c
-		case *ssa.Slice:
-			if u != sl {
-				info.Why = "array sliced more than once"
-				return info
-			}
-		default:
-			info.Why = "array has other uses: " + u.String()
-			return info
-		}
-	}
-	// no writes through the stored slice anywhere are checked by C11.O2/C01.wire (element stores)
-	if call == nil {
-		info.Why = "no builder call"
-		return info
-	}
-	info.Builder = staticCallee(call)
-	if len(call.Call.Args) == 1 {
-		info.Curve, _ = call.Call.Args[0].(*ssa.Function)
-	}
-	if info.Builder == nil || info.Curve == nil {
-		info.Why = "builder or curve argument is not a static function"
-	}
-	return info
-}
-
 // builderFacts: the result of interpreting one generic iteration of a table builder.
 type builderFacts struct {
 	N       int64  // array length
@@ -259,27 +165,28 @@ func checkCurves(p *Program, r *Report, ruleDec, ruleEnc string) {
 // discoverCurves finds the decode/encode curve functions of a package through
 // the LUT wiring (the function handed to the table builders), not by name.
 func discoverCurves(p *Program, pk string) (dec, enc *ssa.Function) {
-	if g := p.Global(pk, "encoded8ToLinearLUT"); g != nil {
-		dec = lutFilledBy(p, g).Curve
+	if ref, _, _, err := entryTable(p, p.Func(pk, "From8Bit")); err == nil {
+		dec = ref.Curve
 	}
-	if g := p.Global(pk, "linearToEncoded8LUT"); g != nil {
-		enc = lutFilledBy(p, g).Curve
+	if ref, _, _, err := entryTable(p, p.Func(pk, "To8Bit")); err == nil {
+		enc = ref.Curve
 	}
 	return
 }
 
 type lutDecl struct {
-	Var, Builder string
-	N            int64
-	Quant        string
-	Decode       bool
+	Entry, Builder string
+	N              int64
+	Quant          string
+	Decode         bool
 }
 
+// the conversion entry points and the builder each one's table must come from
 var lutDecls = []lutDecl{
-	{"encoded8ToLinearLUT", "Build8BitToLinear", 256, "", true},
-	{"encoded16ToLinearLUT", "Build16BitToLinear", 65536, "", true},
-	{"linearToEncoded8LUT", "BuildLinearTo8Bit", 512, "NormalisedTo8Bit", false},
-	{"linearToEncoded16LUT", "BuildLinearTo16Bit", 65536, "NormalisedTo16Bit", false},
+	{"From8Bit", "Build8BitToLinear", 256, "", true},
+	{"From16Bit", "Build16BitToLinear", 65536, "", true},
+	{"To8Bit", "BuildLinearTo8Bit", 512, "NormalisedTo8Bit", false},
+	{"To16Bit", "BuildLinearTo16Bit", 65536, "NormalisedTo16Bit", false},
 }
 
 // checkLUTWiring: each table variable is filled once by the matching builder
@@ -292,46 +199,50 @@ func checkLUTWiring(p *Program, r *Report, rule string, decode bool) {
 			if d.Decode != decode {
 				continue
 			}
-			g := p.Global(pk, d.Var)
-			key := pk + "." + d.Var
-			if g == nil {
-				r.Undecide(rule, key, "-", "table variable not found")
+			fn := p.Func(pk, d.Entry)
+			key := pk + "." + d.Entry + " table"
+			if fn == nil {
+				r.Undecide(rule, key, "-", "conversion entry point not found")
 				continue
 			}
-			li := lutFilledBy(p, g)
-			if li.Why != "" {
-				r.Violate(rule, key, li.Pos, li.Why)
+			ref, _, _, err := entryTable(p, fn)
+			if err != nil {
+				r.Violate(rule, key, p.FnPos(fn), "the table behind "+pk+"."+d.Entry+" cannot be traced to a builder of linear/lut: "+err.Error())
 				continue
 			}
-			okB := li.Builder == p.Func("linear/lut", d.Builder)
-			okC := li.Curve != nil && li.Curve.Pkg == p.SSAPkg[p.pkgPath(pk)]
+			okB := ref.Builder == p.Func("linear/lut", d.Builder)
+			okC := ref.Curve != nil && ref.Curve.Pkg == p.SSAPkg[p.pkgPath(pk)]
 			if curve8 == nil {
-				curve8 = li.Curve
+				curve8 = ref.Curve
 			}
-			same := li.Curve == curve8
-			r.Check(okB && okC && same, rule, key, li.Pos,
-				fmt.Sprintf("= lut.%s(%s)[:], the package's own curve, same curve as the sibling table", d.Builder, shortFn(li.Curve)),
-				fmt.Sprintf("table is filled by %s(%s); required lut.%s applied to %s's own curve (the same one for the 8- and 16-bit tables)", shortFn(li.Builder), shortFn(li.Curve), d.Builder, pk))
+			same := ref.Curve == curve8
+			r.Check(okB && okC && same, rule, key, p.FnPos(fn),
+				fmt.Sprintf("reads lut.%s(%s): the package's own curve, same curve as the sibling table", d.Builder, shortFn(ref.Curve)),
+				fmt.Sprintf("table is %s; required lut.%s applied to %s's own curve (the same one for the 8- and 16-bit tables)", ref, d.Builder, pk))
 		}
 	}
 	// no element stores into any table anywhere
 	bad := ""
 	n := 0
+	ctx := execContexts(p)
 	for _, f := range p.SrcFuncs() {
+		if ctx[f].initOnly() {
+			continue // package initialisation: nothing can read a table yet
+		}
 		for _, b := range f.Blocks {
 			for _, in := range b.Instrs {
 				st, ok := in.(*ssa.Store)
 				if !ok {
 					continue
 				}
-				if g := rootGlobal(st.Addr); g != nil && st.Addr != ssa.Value(g) && strings.HasSuffix(g.Name(), "LUT") {
+				if g := rootGlobal(st.Addr); g != nil && viaElement(st.Addr) && g.Pkg != nil && isColourPkg(g.Pkg.Pkg.Path()) {
 					bad = fmt.Sprintf("%s stores to an element of %s at %s", shortFn(f), g.Name(), p.InstrPos(st))
 				}
 				n++
 			}
 		}
 	}
-	r.Check(bad == "", rule, "no element stores into tables", "-", fmt.Sprintf("%d store instructions scanned: none writes an element of a look-up table", n), bad)
+	r.Check(bad == "", rule, "no element stores into tables", "-", fmt.Sprintf("%d store instructions scanned: none writes an element of a package-level variable of a colour package (tables are only ever assigned whole, from their builder)", n), bad)
 }
 
 // rootGlobal follows an address back to the package-level variable it is
@@ -381,7 +292,7 @@ func rootGlobal(v ssa.Value) *ssa.Global {
 // decodeEntryForm extracts pkg.From8Bit / From16Bit: index(table, v).
 func checkDecodeEntries(p *Program, r *Report, rule string) {
 	for _, pk := range curvePkgs {
-		for _, d := range []struct{ fn, table string }{{"From8Bit", "encoded8ToLinearLUT"}, {"From16Bit", "encoded16ToLinearLUT"}} {
+		for _, d := range []struct{ fn, builder string }{{"From8Bit", "Build8BitToLinear"}, {"From16Bit", "Build16BitToLinear"}} {
 			fn := p.Func(pk, d.fn)
 			key := pk + "." + d.fn
 			if fn == nil {
@@ -389,14 +300,12 @@ func checkDecodeEntries(p *Program, r *Report, rule string) {
 				continue
 			}
 			r.SawFn(shortFn(fn))
-			e := NewEngine(p)
-			v, err := single(p, e, fn, nil)
+			ref, idx, _, err := entryTable(p, fn)
 			if err != nil {
 				r.Violate(rule, key, p.FnPos(fn), "decoder is not a single table lookup: "+err.Error())
 				continue
 			}
-			want := fmt.Sprintf("1*index(%s.%s, 1*%s)", pk, d.table, fn.Params[0].Name())
-			r.Check(valKey(v) == want, rule, key, p.FnPos(fn), "= "+pk+"."+d.table+"[v] with v the unmodified argument", "decoder returns "+trunc(valKey(v), 200)+"; required "+want)
+			r.Check(idx.Equal(formAtom(fn.Params[0].Name())) && ref.Builder == p.Func("linear/lut", d.builder), rule, key, p.FnPos(fn), "= table[v] of lut."+d.builder+" with v the unmodified argument", "decoder returns "+ref.String()+"["+trunc(idx.String(), 120)+"]; required lut."+d.builder+"(curve)[v] with v unmodified")
 		}
 	}
 }
@@ -429,8 +338,8 @@ func checkDecodeConstructors(p *Program, r *Report, rule string) {
 		src := tableSource(sp)
 		t8 := func(ch string) *Form { return nil }
 		_ = t8
-		lut8 := src + ".encoded8ToLinearLUT"
-		lut16 := src + ".encoded16ToLinearLUT"
+		lut8 := tableBase(p, src, "From8Bit").Key
+		lut16 := tableBase(p, src, "From16Bit").Key
 
 		// ColorFromNRGBA
 		fn := p.Func(sp, "ColorFromNRGBA")
@@ -438,7 +347,7 @@ func checkDecodeConstructors(p *Program, r *Report, rule string) {
 			r.Undecide(rule, sp+".ColorFromNRGBA", "-", "not found")
 		} else {
 			r.SawFn(shortFn(fn))
-			e := NewEngine(p)
+			e := wiringEngine(p, false)
 			v, err := single(p, e, fn, nil)
 			if err != nil {
 				r.Violate(rule, sp+".ColorFromNRGBA", p.FnPos(fn), err.Error())
@@ -459,7 +368,7 @@ func checkDecodeConstructors(p *Program, r *Report, rule string) {
 			r.Undecide(rule, sp+".ColorFromRGBA", "-", "not found")
 		} else {
 			r.SawFn(shortFn(fn))
-			e := NewEngine(p)
+			e := wiringEngine(p, false)
 			outs, err := extract(p, e, fn, nil)
 			if err != nil {
 				r.Violate(rule, sp+".ColorFromRGBA", p.FnPos(fn), err.Error())
@@ -510,7 +419,7 @@ func checkDecodeConstructors(p *Program, r *Report, rule string) {
 			r.Undecide(rule, sp+".ColorFromEncodedColor", "-", "not found")
 		} else {
 			r.SawFn(shortFn(fn))
-			e := NewEngine(p)
+			e := wiringEngine(p, false)
 			outs, err := extract(p, e, fn, nil)
 			if err != nil {
 				r.Violate(rule, sp+".ColorFromEncodedColor", p.FnPos(fn), err.Error())
@@ -633,4 +542,35 @@ func condKeys(o Outcome) string {
 		cs = append(cs, c.Key())
 	}
 	return strings.Join(cs, " && ")
+}
+
+func isColourPkg(path string) bool {
+	for _, sp := range allSpaces {
+		if path == ModPath+"/"+sp {
+			return true
+		}
+	}
+	return false
+}
+
+// viaElement: the address is reached through an array/slice element (as
+// opposed to a whole variable or a field of a package-level struct).
+func viaElement(v ssa.Value) bool {
+	for i := 0; i < 32; i++ {
+		switch x := v.(type) {
+		case *ssa.IndexAddr:
+			return true
+		case *ssa.FieldAddr:
+			v = x.X
+		case *ssa.Slice:
+			v = x.X
+		case *ssa.UnOp:
+			v = x.X
+		case *ssa.ChangeType:
+			v = x.X
+		default:
+			return false
+		}
+	}
+	return false
 }
